@@ -13,6 +13,7 @@ PROC_REASONS = {
     "C18": {"keeps_running_degraded", "panic_output", "died_without_signal", "hook_trace_not_a_behaviour", "not_all_workers_serving", "announced_key"},
     "C19": {"exit_not_prompt", "exit_status", "panic_output", "hook_trace_not_a_behaviour"},
     "C20": {"leak_in_output"},
+    "C17": {"stats_files_mismatch", "panic_output", "hook_trace_not_a_behaviour", "exit_status", "exit_not_prompt"},
     "C02": set(),
 }
 SRV_REASONS = {
@@ -22,6 +23,7 @@ SRV_REASONS = {
             "reply_to_malformed", "amplification", "cert_context_not_separated", "midpoint_not_clock", "radius", "announced_key"},
     "C19": {"malformed_response", "bad_framing", "cert_invalid", "srep_sig_invalid", "proof_invalid", "nonce_not_echoed", "wrong_protocol", "duplicate_reply"},
     "C20": {"leak"},
+    "C17": {"no_reply_to_valid"},
     "C02": sc.REASONS["C02"],
 }
 
@@ -94,7 +96,7 @@ def _run_once(c, scenarios, tag, timeout=3000, collect=None):
 
 
 # deviations that a slow or busy machine, a lost datagram or a port clash can also produce: these are re-run before being reported
-ENV_SENSITIVE = {"exit_not_prompt", "no_reply_to_valid", "health_check_unanswered", "time_service_interrupted", "not_all_workers_serving",
+ENV_SENSITIVE = {"stats_files_mismatch", "exit_not_prompt", "no_reply_to_valid", "health_check_unanswered", "time_service_interrupted", "not_all_workers_serving",
                  "died_without_signal", "announced_key", "exit_status"}
 
 
@@ -231,6 +233,20 @@ def c18_scenarios(tier, seed):
                         # (at most 72 datagrams per burst: more could overflow one socket's default receive buffer)
                         stalled_bursts=[[72, "G"], [72, "I"], [72, "mix"], [40, "I"], [66, "G"]], client_stats=(k % 2 == 1)))
     return out
+
+
+def binary_stats_stage(c):
+    """C17 end to end on the real binary: known traffic, the workers' status timers, the queue, the reporter thread and the
+    files it writes; the decoded column sums must be the traffic (decided by Trace_Process.tla)"""
+    # status_interval 10: the shortest interval at which nothing can be dropped on the way (exact sums demanded);
+    # status_interval 1: snapshots may be dropped by force_push (the files may hold less than the traffic, never more)
+    scs = [scen(0, num_workers=1, client_stats=True, status_interval=10, probe=False, stats_audit=True),
+           scen(1, num_workers=3, client_stats=True, status_interval=1, probe=False, stats_audit=True, batch_size=4)]
+    if c.tier == "thorough":
+        scs += [scen(2, num_workers=8, client_stats=True, status_interval=10, probe=False, stats_audit=True, source="env"),
+                scen(3, num_workers=2, client_stats=True, status_interval=12, probe=False, stats_audit=True, fault_percentage=0, batch_size=1),
+                scen(4, num_workers=2, client_stats=True, status_interval=3, probe=False, stats_audit=True)]
+    run_scenarios(c, scs, "audit")
 
 
 def binary_reply_stage(c):
